@@ -6,7 +6,7 @@
    (r, id) exactly when a cdp id of that type is stored and r is the (clipped)
    collateral:debt ratio recomputed from the STORED record — "indexed exactly once under
    its current collateral-to-debt ratio". *)
-From Kava Require Import Base.Prelude Base.Dec Model.Cdp Proofs.CdpRatio Proofs.Cdp Proofs.CdpInv Proofs.CdpInv2 Proofs.CdpInv3 Proofs.CdpCust Proofs.CdpDebt Proofs.CdpOwn Proofs.CdpPrin Proofs.CdpClose.
+From Kava Require Import Base.Prelude Base.Dec Model.Cdp Proofs.CdpRatio Proofs.Cdp Proofs.CdpInv Proofs.CdpInv2 Proofs.CdpInv3 Proofs.CdpCust Proofs.CdpDebt Proofs.CdpOwn Proofs.CdpPrin Proofs.CdpClose Proofs.CdpTotalA Proofs.CdpTotalI Proofs.CdpTotalB Proofs.CdpTotal.
 
 (** ** The ratio index along the code paths that rewrite it *)
 
@@ -153,11 +153,9 @@ Proof. intros e usdx0 ops s Hd Hw H. exact (DebtInv_run e usdx0 ops s Hd Hw H). 
 Print Assumptions C04_debt_all_histories.
 
 (** ** Total principal moves with the debt of the cdps (exact, per operation) *)
-(* The clause "total principal = sum of cdp debt up to interest rounding" is a statement about products of
-   rounded interest factors; the model proves the exact per-operation bookkeeping (below: create, draw,
-   seizure, repay, interest accumulation) and the Go monitor [total-principal-drift] checks the
-   bound on every step of every history against the implementation.  A closed-form bound over all
-   histories is not proved. *)
+(* The per-operation bookkeeping (create, draw, seizure, repay, interest accumulation) is exact; the clause
+   "total principal = sum of cdp debt up to interest rounding" over whole histories is proved further below
+   ([C04_total_principal_all_histories]). *)
 Theorem C04_total_principal_create :
   forall e s o t cd coll pd prin s' u, create e s o t cd coll pd prin = Ok s' u ->
   tprin s' t = tprin s t + prin /\ (forall t', t' <> t -> tprin s' t' = tprin s t').
@@ -197,6 +195,63 @@ Theorem C04_total_principal_accumulate :
   0 <= acc -> bal s' (CDPM e) (d_debt e) = bal s (CDPM e) (d_debt e) + acc \/ acc = 0.
 Proof. exact accumulate_tprin. Qed.
 Print Assumptions C04_total_principal_accumulate.
+
+(** ** Total principal = sum of cdp debt up to interest rounding, over all histories *)
+(* [ssum s t] (Proofs/CdpTotalI.v): the sum over the stored cdps of type t of [debt_at (gfac s t) c] =
+   RoundInt((principal + fees) * (globalFactor / cdpFactor)), the debt SynchronizeInterest would store
+   (CalculateNewInterest, with the Dec quotient and product rounded as the library rounds them);
+   [gfac s t] the global interest factor of the type (one while unset).
+   [PInv s] = every stored cdp has non-negative principal and fees, its interest factor lies between one and
+   the global factor, and it is either AT the global factor or was last touched before the type's accrual
+   time (so the next SynchronizeInterest does not skip it); global factors >= 1 and accrual times not in
+   the future; the ratio index lists are sorted.
+   [hist_ok e s ops]: every block advances the clock (dt > 0), and no cdp's debt, brought up to the factor
+   an operation leaves behind, reaches 10^18 stable coins in base units (types.MaxSortableDec; above it the
+   index key no longer falls with the debt and LiquidateCdps could seize a cdp the bulk synchronisation did not reach).
+   [fees_ok e]: stability fees >= 1 (enforced by the parameter validation).
+   [ghostN e s ops t N]: the count of roundings, a history variable: it grows only at an operation (a block)
+   that changes the type's interest factor — i.e. in which AccumulateInterest accrued — and then by
+   (stored cdps of the type) + 1 + (4 * stored debt + N) / 10^18 (the last term is 0 below 10^17 units).
+   Theorem: |total principal - synchronised debt| * 10^18 <= (global factor) * N along every history.
+   Only AccumulateInterest moves the difference (it rounds the interest on the total once, each cdp rounds
+   its own later, and the factor product and the factor quotient are rounded to 18 decimals); create, draw,
+   repay, deposit, withdraw, keeper liquidation, SynchronizeInterest, the bulk synchronisation and the
+   liquidation pass keep it exactly (or shrink it where the total is clipped at zero).  The cdps seized by
+   LiquidateCdps are proved to be among those the bulk synchronisation of the same block brought up to date. *)
+Theorem C04_total_principal_all_histories :
+  forall e, env_wf e -> params_ok e -> fees_ok e ->
+  forall ops s, Inv3 e s -> PInv s -> hist_ok e s ops ->
+  forall t N, 0 <= N -> Z.abs (tprin s t - ssum s t) * PREC <= gfac s t * N ->
+  let s' := run e s ops in
+  Z.abs (tprin s' t - ssum s' t) * PREC <= gfac s' t * ghostN e s ops t N.
+Proof. exact total_principal_bound_abs. Qed.
+Print Assumptions C04_total_principal_all_histories.
+
+(* the state invariant behind it holds along every such history *)
+Theorem C04_total_principal_invariant :
+  forall e, env_wf e -> params_ok e -> fees_ok e ->
+  forall ops s, Inv3 e s -> PInv s -> hist_ok e s ops -> PInv (run e s ops).
+Proof. exact total_principal_PInv. Qed.
+Print Assumptions C04_total_principal_invariant.
+
+(* one operation: message-level operations keep the interest factors and do not increase the difference *)
+Theorem C04_total_principal_message_ops :
+  forall e s o s' u, IdxInv e s -> PInv s -> step e s o = Ok s' u ->
+  (forall dt prices, o <> Block dt prices) ->
+  (forall t, gfac s' t = gfac s t) /\
+  forall t, Z.abs (tprin s' t - ssum s' t) <= Z.abs (tprin s t - ssum s t).
+Proof. exact message_ops_keep_drift. Qed.
+Print Assumptions C04_total_principal_message_ops.
+
+(* genesis satisfies the hypotheses with a count of zero *)
+Theorem C04_genesis_total_principal :
+  forall bals sups prices status ifacs ptimes startid t h,
+  (forall i, match nthO ifacs i with Some g => PREC <= g | None => True end) ->
+  (forall i p, nthO ptimes i = Some p -> p <= t) ->
+  let s := mk_state bals sups prices status ifacs ptimes startid t h in
+  PInv s /\ forall t0, Z.abs (tprin s t0 - ssum s t0) * PREC <= gfac s t0 * 0.
+Proof. exact init_total_principal. Qed.
+Print Assumptions C04_genesis_total_principal.
 
 (** ** Closing returns to every depositor exactly what they deposited *)
 (* ReturnCollateral: each depositor's balance of the collateral denom grows by exactly the recorded
@@ -295,3 +350,74 @@ Example C04_nonvacuous :
   (match cdps s1 2 1 with Some c => 0 <? c_fees c | None => false end) = true /\
   cdps s2 2 1 = None /\ bal s2 1 4 = bal x_s0 1 4 /\ bal s2 0 4 = bal x_s0 0 4.
 Proof. vm_compute. repeat split; reflexivity. Qed.
+
+(** ** Non-vacuity of the total-principal bound *)
+(* same parameters with a liquidation interval of 1000 blocks, so that the begin blocker accrues interest on
+   the total every block while the cdp itself is not synchronised *)
+Definition x_env2 : env :=
+  mkEnv 4 5 4 [mkCP 0 1500000000000000000 100000000000000 1000000001547125958 10000000 50000000000000000 0 1 10000000000000000 10 8;
+               mkCP 0 2000000000000000000 100000000000000 1000000051034942716 10000000 50000000000000000 0 1 10000000000000000 10 8;
+               mkCP 4 1500000000000000000 100000000000000 1000000001547125958 10000000 50000000000000000 2 3 10000000000000000 10 6]
+        3 1 2 6 1 400000000000000 500000000000 10000000000 100000000000 10000000000 1000.
+(* one cdp with the smallest permitted debt (10 stable coins), then forty blocks 33 s apart *)
+Definition x_hist : list op := Create 0 2 4 60000000 3 10000000 :: repeat (Block 33000000000 []) 40.
+
+Lemma x_env2_ok : env_wf x_env2 /\ params_ok x_env2 /\ fees_ok x_env2 /\ Inv3 x_env2 x_s0 /\ PInv x_s0.
+Proof.
+  assert (G : forall t cp, get_cp x_env2 t = Some cp -> (cp_denom cp = 0%nat \/ cp_denom cp = 4%nat) /\ 0 <= cp_reward cp /\ PREC <= cp_fee cp).
+  { intros t cp H. destruct t as [|[|[|t]]]; cbn in H; try (inversion H; subst; cbn; split; [auto|split; [lia|unfold PREC; lia]]). destruct t; discriminate. }
+  split; [|split; [|split; [|split; [split; [|split]|]]]].
+  - intros t cp H. destruct (G t cp H) as [[D|D] _]; rewrite D; cbn; split; discriminate.
+  - intros t cp H. apply (G t cp H).
+  - intros t cp H. apply (G t cp H).
+  - apply C04_genesis_IdxInv.
+  - apply C04_genesis_custody. intros t cp H. destruct (G t cp H) as [[D|D] _]; rewrite D; reflexivity.
+  - apply C04_genesis_owner_index.
+  - apply init_PInv.
+    + intros i. destruct i as [|[|[|i]]]; cbn; try (unfold PREC; lia). destruct i; exact I.
+    + intros i p. destruct i as [|[|[|i]]]; cbn; try (intros E; inversion E; lia). destruct i; discriminate.
+Qed.
+
+(* the hypotheses of the theorem are satisfiable on a history with interest *)
+Example C04_total_principal_hypotheses_satisfiable : hist_ok x_env2 x_s0 x_hist.
+Proof.
+  destruct x_env2_ok as (A & B & _ & D & _). apply (hist_ok_b_sound x_env2 A B x_hist x_s0 D). vm_compute. reflexivity.
+Qed.
+
+(* ... on which the difference is NOT zero: every block rounds the interest on the total (one half of a micro
+   coin of true interest becomes a whole one), the cdp's own debt is rounded once; after 40 blocks the total
+   principal is 10000040, the synchronised debt 10000020, the count 80 (two per accumulation) *)
+Example C04_total_principal_drift_nonzero :
+  let s := run x_env2 x_s0 x_hist in
+  tprin s 2 = 10000040 /\ ssum s 2 = 10000020 /\ ghostN x_env2 x_s0 x_hist 2 0 = 80 /\
+  Z.abs (tprin s 2 - ssum s 2) * PREC <= gfac s 2 * ghostN x_env2 x_s0 x_hist 2 0.
+Proof. vm_compute. repeat split; try reflexivity. discriminate. Qed.
+
+(* the difference grows with the number of accumulations (here about one half per block), so a bound that
+   does not count them cannot hold: after 200 blocks it is 98 *)
+Example C04_total_principal_drift_grows :
+  let s := run x_env2 x_s0 (Create 0 2 4 60000000 3 10000000 :: repeat (Block 33000000000 []) 200) in
+  tprin s 2 - ssum s 2 = 98.
+Proof. vm_compute. reflexivity. Qed.
+
+(* The guard "blocks advance the clock" is needed, in the model as in the code: SynchronizeInterest skips a cdp
+   whose interest rounds to zero and whose FeesUpdated EQUALS the previous accrual time.  If two blocks carry
+   the same time (second block below: dt = 0) and the first did not accrue (interest on the small total
+   rounded to zero, so the accrual time stayed behind), a cdp created in between gets FeesUpdated = the accrual
+   time the second block sets, keeps its old interest factor through the draw (the skip), and the principal
+   drawn is later charged interest from before it was drawn: total principal and synchronised debt differ by
+   30942 while the count is 3.  CometBFT block times are strictly increasing, so this history cannot occur on a
+   chain; with dt > 0 everywhere the theorem above applies. *)
+Definition x_same_time : list op :=
+  [Create 0 2 4 60000000 3 10000000; Block 20000000000 []; Create 1 2 4 60000000000000 3 10000000;
+   Block 0 []; Draw 1 2 3 1000000000000].
+Example C04_total_principal_same_time_blocks_refuted :
+  exists ops, (forall dt pr, In (Block dt pr) ops -> 0 <= dt) /\
+    let s := run x_env2 x_s0 ops in
+    tprin s 2 - ssum s 2 = -30942 /\
+    gfac s 2 * ghostN x_env2 x_s0 ops 2 0 < Z.abs (tprin s 2 - ssum s 2) * PREC.
+Proof.
+  exists x_same_time. split.
+  - intros dt pr H. cbn in H. repeat destruct H as [H|H]; try discriminate; try contradiction; inversion H; lia.
+  - vm_compute. split; reflexivity.
+Qed.
